@@ -84,6 +84,34 @@ func DefaultTree() *Node {
 	return &Node{Dir: true, Path: 10, Children: map[string]*Node{"a": a, "c": c}}
 }
 
+// ParentPath is the path one level up ("/" stays "/").
+func ParentPath(p string) string {
+	p = strings.TrimSuffix(p, "/")
+	i := strings.LastIndex(p, "/")
+	if i <= 0 {
+		return "/"
+	}
+	return p[:i]
+}
+
+// LookupIn resolves an absolute path in the tree rooted at root.
+func LookupIn(root *Node, path string) *Node {
+	n := root
+	for _, el := range strings.Split(strings.Trim(path, "/"), "/") {
+		if el == "" {
+			continue
+		}
+		if n == nil || !n.Dir {
+			return nil
+		}
+		n = n.Children[el]
+	}
+	return n
+}
+
+// Lookup resolves an absolute path in this file system's tree.
+func (fs *FS) Lookup(path string) *Node { return LookupIn(fs.Root, path) }
+
 func New() *FS { return &FS{Root: DefaultTree(), nextPath: 100} }
 
 func (fs *FS) problem(format string, a ...any) {
@@ -192,14 +220,22 @@ func (e *Ent) Walk(ctx context.Context, names ...string) ([]p9p.Qid, p9p.Dirent,
 			break
 		}
 		var next *Node
-		if n.Dir {
-			next = n.Children[name]
+		np := path
+		if name == ".." {
+			// the parent (the root is its own parent)
+			np = ParentPath(path)
+			next = e.fs.Lookup(np)
+		} else {
+			if n.Dir {
+				next = n.Children[name]
+			}
+			np = strings.TrimSuffix(path, "/") + "/" + name
 		}
 		if next == nil {
 			break
 		}
 		n = next
-		path = strings.TrimSuffix(path, "/") + "/" + name
+		path = np
 		q := p9p.Qid{Path: n.Path}
 		if n.Dir {
 			q.Type = p9p.QTDIR
